@@ -140,7 +140,8 @@ def register_bounded_constants(w):
                                   "4 programs (top level, fori_loop body, cond branch, @onnx_function body) with pairs of literals equal to float32 resolution, x64 flag off/on, 2 inputs each; compared with float64 numpy at 1e-13"),
                                  ("function_body_constants_follow_the_requested_precision", "C09_function_body_constants_follow_precision", "one @onnx_function body, both precision settings"),
                                  ("builder_helpers_store_payloads_as_the_precision_policy_requires", "C09_builder_payload_family",
-                                  "IRBuilder.add_initializer_from_scalar/_array: 12 values (python/numpy floats of 3 widths, ints, bool, arrays) x precision flag x graph/function mode")):
+                                  "IRBuilder.add_initializer_from_scalar/_array: 12 values (python/numpy floats of 3 widths, ints, bool, arrays) x precision flag x graph/function mode"),
+                                 ("arctan2_is_computed_in_the_requested_precision", "D48", "one program: jnp.arctan2 on float64[4] with enable_double_precision=True, compared with float64 numpy at 1e-12")):
             holds, detail = run_witness(wn, timeout=900)
             d = {"oid": f"jax2onnx.converter.ir_context:IRContext.bind_const_for_var+_bind_literal_value_for_var#bounded:{oname}", "kind": "bounded",
                  "status": "discharged" if holds else ("refuted" if holds is False else "unknown"), "backend": "enumerated", "time": time.time() - t0, "instances": 1, "trivial": 0,
@@ -150,7 +151,7 @@ def register_bounded_constants(w):
             out["obls"].append(d)
         out["paths"], out["time"] = 1, time.time() - t0
         return out
-    w.add_contract(Contract("jax2onnx.converter.ir_context:<bounded-constants>", kind="custom", custom=custom, props=["C09"], witnesses=["C09_literal_precision_family", "C09_builder_payload_family"]))
+    w.add_contract(Contract("jax2onnx.converter.ir_context:<bounded-constants>", kind="custom", custom=custom, props=["C09"], witnesses=["C09_literal_precision_family", "C09_builder_payload_family", "D48"]))
 
 
 def register_pipeline(w):
